@@ -2,8 +2,9 @@ import OpdaModel.Wire
 import OpdaModel.NoisyFloat
 /-!
 Line-protocol handlers for `NoisyQuadraticDistribution` (the `Float` instance of the polymorphic model
-`Opda.Noisy`).  Every value is evaluated once with the plain elementary functions and four more times
-with each transcendental result nudged by a pseudo-random ±8 ulps; the reply carries the plain value
+`Opda.Noisy`).  Every value is evaluated once with the plain elementary functions and eight more times
+with each transcendental result nudged by a pseudo-random ±8 ulps (eight jitter seeds since the max of few draws
+is occasionally small by chance); the reply carries the plain value
 and the observed spread, from which the harness derives its comparison allowance (DESIGN §1.2).
 
     noisy.cdf a b c o cv n y₁ … yₙ   →  v₁ s₁ … vₙ sₙ          (value, jitter spread)
@@ -15,7 +16,7 @@ and the observed spread, from which the harness derives its comparison allowance
 namespace Opda.Drv.Noisy
 open Opda.Wire Opda.NoisyF
 
-def jits : List Fns := [jitter 1 8, jitter 2 8, jitter 3 8, jitter 4 8]
+def jits : List Fns := [jitter 1 8, jitter 2 8, jitter 3 8, jitter 4 8, jitter 5 8, jitter 6 8, jitter 7 8, jitter 8 8]
 
 /-- plain value and the largest deviation among the jittered evaluations -/
 def withSpread (f : Fns → Float) : Float × Float :=
